@@ -140,11 +140,18 @@ func c16Triples(c *Ctx, n int) []c16Triple {
 			recvs := c14Receivers()
 			rc := recvs[r.Intn(len(recvs))]
 			root := &CTy{T: "struct", F: []*CField{{N: "input", M: "reg", Ty: &CTy{T: "struct", F: []*CField{
-				{N: "recv", M: "reg", Ty: rc.ty}, {N: "_dependencies", M: "reg", H: 1, Ty: &CTy{T: "deplist", V: []string{}}}}}}}}
+				{N: "recv", M: "reg", Ty: rc.ty}, {N: "_dependencies", M: "reg", H: 1, Ty: &CTy{T: "deplist", V: []string{}}}}}},
+				{N: "top", M: "reg", Ty: rc.ty}}} // the same receiver also as a top-level field: `$.top.First()` has no object-typed field before the call
 			txt := cueSchemaText(&cueGen{}, root)
 			names := funcNames()
 			fns := mpath.ListFunctions()
 			q := "$.input.recv"
+			if r.Intn(2) == 0 {
+				q = "$.top"
+			}
+			if r.Intn(6) == 0 {
+				ts = append(ts, c16Triple{"$.input", txt, "", "function-chain", nil})
+			}
 			for d := 0; d < 1+r.Intn(3); d++ {
 				fn := names[r.Intn(len(names))]
 				conf, _ := c14ArgLists(fns[mpath.FT_FunctionType(fn)])
@@ -167,6 +174,15 @@ func c16Triples(c *Ctx, n int) []c16Triple {
 				q = "$.input"
 			}
 			ts = append(ts, c16Triple{q, s, cps[r.Intn(len(cps))], "malformed", nil})
+		}
+	}
+	// First / Last / Index on a TOP-LEVEL list of structs next to queries that address a struct-typed field: both reach the
+	// "functions offered for (Object, Single)" computation, one with and one without the element's schema expression
+	for i := 0; i < 6 && len(ts) > 12; i++ {
+		schema := fmt.Sprintf("orders: [...{id: string, n%d: number}]\ninput: {name: string, ok: bool, _dependencies: []}\n", i)
+		qs := []string{"$.orders.First()", "$.input", "$.orders.Last().id", "$.input.name", "$.orders.Index(0)", "$.orders"}
+		for j, q := range qs {
+			ts[(i*len(qs)+j)%n] = c16Triple{q, schema, "", "offered-functions", nil}
 		}
 	}
 	return ts[:n]
